@@ -28,6 +28,8 @@ SPEC = {
     'declined': ['element conservation and chunk sizes as values', 'agreement with str.split/strip', 'chunk_ranges arithmetic'],
     'trusted_base': ['itertools.islice/tee/zip semantics'], 'assumptions': [], 'exhaustive': True,
 }
+SPEC['explanation'] += " T19t: split_iter recognises an omitted sep / maxsplit by identity, never by truthiness (0, '' and False are separators; maxsplit=0 is a bound). T25.stride: chunk_ranges aligns the first chunk modulo the same stride the range loop steps by."
+SPEC['decided'] += ['None-default parameters never tested by truthiness', 'alignment modulus == stride']
 MANIFEST = {
     'technique': 'syntactic delegation check, consumption-count (one-pass) dataflow, nesting-depth and pairing checks on CFG paths, dominating-guard checks',
     'text': ('Decides by construction that list and iterator forms agree, that a one-shot source is traversed once, and a few '
